@@ -30,7 +30,7 @@ def dir_s(d, style='fp'):
 
 
 class Impl:
-    def __init__(self, await_all, style='fp', reason='UPLOAD_REJECTED', auth=False, with_progress=True):
+    def __init__(self, await_all, style='fp', reason='UPLOAD_REJECTED', auth=False, with_progress=True, rival=False):
         self.style = style
         self.reason = (' REASON=' + reason) if reason else ''   # control-spec: UPLOAD_REJECTED, UNEXPECTED, … or no REASON at all
         from harness.simtor import SimTor
@@ -39,10 +39,19 @@ class Impl:
         self.st = SimTor().connect()
         self.cfg = TorConfig(self.st.proto)
         assert self.cfg.post_bootstrap.called
+        self.other = 'otherservice0001'
+        self.own = 'svc1abcdefghijkl'
+        if rival and not auth:
+            # another service is being created on the same connection — it subscribed first, its command is answered already, and the
+            # "other service" of the history is this one (its wait goes on, and ends, while ours is under way)
+            self.rival_done = []
+            EphemeralOnionService.create(None, self.cfg, ['81 127.0.0.1:8081'], version=3, await_all_uploads=False).addBoth(
+                lambda r: self.rival_done.append(1) and None)
+            self.other = self.st.service_ids[-1]
+            self.own = 'svc2abcdefghijkl'
         self.st.hold_prefixes.add('ADD_ONION')
         self.result = []
         self.progress = []
-        self.own = 'svc1abcdefghijkl'
         if auth:
             # basic client authorisation (version 2): Tor hands out a real RSA key; the service's events carry its permanent id
             pem, permid = rsa_key_pem()
@@ -57,7 +66,6 @@ class Impl:
                                              await_all_uploads=await_all,
                                              progress=(lambda p, t, s: self.progress.append(round(p, 1))) if with_progress else None)
         d.addCallbacks(lambda r: self.result.append('ok'), lambda f: self.result.append('fail') and None)
-        self.other = 'otherservice0001'
 
     def do(self, op):
         if op[0] == 'reply':
@@ -80,7 +88,15 @@ class Impl:
                 self.st.event('HS_DESC UPLOADED %s UNKNOWN %s' % (addr, dir_s(d, self.style)))
             else:
                 self.st.event('HS_DESC FAILED %s UNKNOWN %s%s' % (addr, dir_s(d, self.style), self.reason))
-        return [self.result[0] if self.result else 'none', 'sub' if 'HS_DESC' in self.st.proto.events else 'unsub']
+        return [self.result[0] if self.result else 'none', 'sub' if self.subscribed() else 'unsub']
+
+    def subscribed(self):
+        """is *our* wait still listening? (a rival creation that is still waiting listens too)"""
+        ev = self.st.proto.valid_events.get('HS_DESC')
+        n = len(ev.callbacks) if (ev is not None and 'HS_DESC' in self.st.proto.events) else 0
+        if getattr(self, 'rival_done', None) is not None and not self.rival_done:
+            n -= 1
+        return n > 0
 
 
 class FsImpl(Impl):
@@ -171,7 +187,7 @@ def run_impl(c):
             last = im.finish()
         return [last]
     im = Impl(c['await_all'], c.get('names', 'fp'), c.get('reason', 'UPLOAD_REJECTED'), auth=(c.get('kind') == 'ephauth'),
-              with_progress=c.get('progress', True))
+              with_progress=c.get('progress', True), rival=bool(c.get('rival')))
     trace = []
     for op in c['ops']:
         trace.append(im.do(op))
@@ -243,6 +259,8 @@ def gen_cases(rng, tier):
         if k % 5 == 3:
             c['kind'] = 'ephauth'       # EphemeralAuthenticatedOnionService.create (basic authorisation)
         c['progress'] = rng.random() < 0.5      # with or without a progress callback (the default is none)
+        if k % 5 in (0, 1) and rng.random() < 0.5:
+            c['rival'] = True                   # the other service of the history is one this application is creating too
         yield c
     if tier == 'thorough':
         scripts = []
